@@ -1046,18 +1046,19 @@ SRes LzmaDec_DecodeToBuf(CLzmaDec *p, Byte *dest, SizeT *destLen, const Byte *sr
     if (p->dicPos == p->dicBufSize) {
       if (p->dicBufSize < p->prop.dicSize) {
         if (p->dicBufSize < memlimit) {
-          p->dicBufSize = p->dicBufSize << 2;
-          if (p->dicBufSize > memlimit) {
-            p->dicBufSize = memlimit;
+          SizeT newSize = p->dicBufSize << 2;
+          if (newSize > memlimit) {
+            newSize = memlimit;
           }
-          if (p->dicBufSize > p->prop.dicSize) {
-            p->dicBufSize = p->prop.dicSize;
+          if (newSize > p->prop.dicSize) {
+            newSize = p->prop.dicSize;
           }
-          Byte *tmp = realloc(p->dic, p->dicBufSize);
+          Byte *tmp = realloc(p->dic, newSize);
           if (!tmp) {
             return SZ_ERROR_MEM;
           }
           p->dic = tmp;
+          p->dicBufSize = newSize;
         } else {
           return SZ_ERROR_MEM;
         }
